@@ -2501,7 +2501,12 @@ fn project(p: &Pczt) -> Result<(J, V), String> {
         && p.transparent().inputs().len() == at(&l, &P_TIN).seq().len()
         && p.transparent().outputs().len() == at(&l, &P_TOUT).seq().len()
         && p.orchard().actions().len() == at(&l, &P_ACT).seq().len()
-        && gg.proprietary().len() == match g.field(&s_global(), "proprietary") { V::Map(m) => m.len(), _ => 0 };
+        && gg.proprietary().len() == match g.field(&s_global(), "proprietary") { V::Map(m) => m.len(), _ => 0 }
+        && p.orchard().anchor().map(|a| a.to_vec()) == l.field(&sl, "orchard").field(&s_orchard(Form::Logical), "anchor").opt().map(|v| v.bytes().to_vec())
+        && p.ironwood().anchor().map(|a| a.to_vec()) == l.field(&sl, "ironwood").field(&s_orchard(Form::Logical), "anchor").opt().map(|v| v.bytes().to_vec())
+        && p.ironwood().actions().len() == at(&l, &[Step::F(4), Step::F(0)]).seq().len()
+        && p.sapling().spends().len() == at(&l, &[Step::F(2), Step::F(0)]).seq().len()
+        && p.sapling().outputs().len() == at(&l, &[Step::F(2), Step::F(1)]).seq().len();
     // v1-representability through the public getters (not through the serialisation)
     let iw = p.ironwood();
     let iron = !(iw.actions().is_empty() && iw.anchor().is_none() && iw.zkproof().is_none() && *iw.flags() == 7 && *iw.value_sum() == (0, false))
@@ -2936,6 +2941,8 @@ enum Realise {
 struct RoleSlot {
     target: Target,
     how: Realise,
+    /// the Redactor call (definition, item index) that clears this slot again
+    undo: Option<(usize, Option<usize>)>,
 }
 
 fn role_slots(base: &Base, base_l: &V, reds: &[RedactDef]) -> Vec<RoleSlot> {
@@ -2944,7 +2951,10 @@ fn role_slots(base: &Base, base_l: &V, reds: &[RedactDef]) -> Vec<RoleSlot> {
     let mut v: Vec<RoleSlot> = vec![];
     let mut upd = |name: String, f: Box<dyn Fn(u8) -> Op>| {
         if let Some(t) = find(&name) {
-            v.push(RoleSlot { target: t, how: Realise::Upd(f) })
+            // the redaction of the same class, at the item the slot belongs to
+            let idx = name.find('[').and_then(|a| name[a + 1..].find(']').map(|b| name[a + 1..a + 1 + b].parse::<usize>().expect("index")));
+            let undo = reds.iter().position(|d| d.class == t.class).map(|r| (r, idx));
+            v.push(RoleSlot { target: t, how: Realise::Upd(f), undo })
         } else {
             panic!("no target {name}")
         }
@@ -2990,10 +3000,11 @@ fn role_slots(base: &Base, base_l: &V, reds: &[RedactDef]) -> Vec<RoleSlot> {
                 schema: S::Var,
             },
             how: Realise::SignT(i),
+            undo: None,
         });
     }
     if let Some((i, _)) = &base.orchard_ask {
-        v.push(RoleSlot { target: find(&format!("orchard.actions[{i}].spend.spend_auth_sig")).expect("sig slot"), how: Realise::SignRandom(Pool::Orchard, *i) });
+        v.push(RoleSlot { target: find(&format!("orchard.actions[{i}].spend.spend_auth_sig")).expect("sig slot"), how: Realise::SignRandom(Pool::Orchard, *i), undo: None });
     }
     // everything the Redactor can clear and the base carries (optional fields; one item at a time)
     for (r, d) in reds.iter().enumerate() {
@@ -3006,7 +3017,7 @@ fn role_slots(base: &Base, base_l: &V, reds: &[RedactDef]) -> Vec<RoleSlot> {
         if d.list.is_empty() {
             if let Some(t) = find(&d.class) {
                 if read_flat(base_l, &t).is_some() {
-                    v.push(RoleSlot { target: t, how: Realise::RedactOnly(r, None) });
+                    v.push(RoleSlot { target: t, how: Realise::RedactOnly(r, None), undo: None });
                 }
             }
         } else {
@@ -3017,7 +3028,7 @@ fn role_slots(base: &Base, base_l: &V, reds: &[RedactDef]) -> Vec<RoleSlot> {
                 let name = d.class.replacen("[]", &format!("[{i}]"), 1);
                 if let Some(t) = find(&name) {
                     if read_flat(base_l, &t).is_some() && !(name.ends_with("spend_auth_sig") && base.orchard_ask.as_ref().is_some_and(|(k, _)| *k == i)) {
-                        v.push(RoleSlot { target: t, how: Realise::RedactOnly(r, Some(i)) });
+                        v.push(RoleSlot { target: t, how: Realise::RedactOnly(r, Some(i)), undo: None });
                     }
                 }
             }
@@ -3050,13 +3061,19 @@ fn role_parties(base: &Base, base_l: &V, reds: &[RedactDef], case: &J, bound: &B
     let fail = |what: String| json!({"what": "a role refused while the parties were made", "error": what});
     let mut parties = vec![];
     let mut logical = vec![];
-    for p in ps {
+    for (pi, p) in ps.iter().enumerate() {
         let mut q = base.pczt.clone();
         let mut later: Vec<Op> = vec![];
         for (slot, abs) in jmap(&p["opt"]) {
             let rs = bound[&slot];
             match (&rs.how, abs) {
                 (Realise::Upd(f), a) if a > 0 => q = guarded(|| f(a as u8).apply(base, reds, &keys, q, &[])).map_err(|m| fail(m))?.map_err(fail)?,
+                // an empty slot: never written -- or (every other party) written and redacted again
+                (Realise::Upd(f), 0) if rs.undo.is_some() && pi % 2 == 1 => {
+                    q = guarded(|| f(1).apply(base, reds, &keys, q, &[])).map_err(|m| fail(m))?.map_err(fail)?;
+                    let (r, idx) = rs.undo.unwrap();
+                    later.push(Op::Redact { r, idx });
+                }
                 (Realise::SignT(i), 1) => q = guarded(|| Op::SignT { i: *i }.apply(base, reds, &keys, q, &[])).map_err(|m| fail(m))?.map_err(fail)?,
                 (Realise::SignRandom(pool, i), a) if a > 0 => {
                     let key = (slot.clone(), a);
